@@ -25,6 +25,8 @@ Files.
   C11_RefineOrder.lean    rotate, reverse
   C11_RefineMaxlen.lean   the maxlen setter
   C11_RefineRestore.lean  when the hypothesis of rotate / reverse holds (`restorable_lawful`)
+  C11_RefineUnbounded.lean (imports this file) deques longer than their bound (`OkU`): what `append`
+                          does there, `setMaxlen_bounds`, histories after one `maxlen` assignment
   this file               one call (`step_*`), histories (`drun_*`), the user-level corollaries,
                           non-vacuity, the counterexamples for the added hypotheses
 
@@ -591,6 +593,36 @@ example :
     (DOp.rotate toyV 1 1).restoreOk (absList d) d.cache.cfg = true ∧
     (items (d.rotate toyV 1 1).1).map (entryOfRow (d.rotate toyV 1 1).1.cache) =
       (DSpec.rotate (absList d) 1).1.items := by
+  decide +kernel
+
+/-! ### `rotate` / `reverse` when a value that was read back cannot be stored again
+
+A codec whose `loads` gives a text with a lone surrogate: the object `o` is stored as a pickle, read
+back as `'\ud800'`, and that text cannot be stored.  `rotate(1)` pops `o` and the re-append raises:
+UnicodeEncodeError propagates out of `rotate`, the popped item is lost (persistent.py:629-633), no
+transaction is left open.  `reverse()` raises while filling its temporary Deque, before the
+`clear`: the deque is untouched (persistent.py:590).  (Outside `DSpec.restores`, so outside the
+refinement theorems — these two pin the model to the Python code there.) -/
+
+def exBadE2 : Externals := { toyV with loads := fun _ => .str [0xD800] }
+
+def exBadD2 : Deque := ((fresh none).extend exBadE2 0 [.int 5, .obj [1]] false).1
+
+theorem rotate_propagates_error :
+    exBadD2.cache.rows.length = 2 ∧
+    (match (exBadD2.rotate exBadE2 1 1).2 with | .exc "UnicodeEncodeError" => true | _ => false) = true ∧
+    (exBadD2.rotate exBadE2 1 1).1.cache.rows = exBadD2.cache.rows.take 1 ∧
+    (exBadD2.rotate exBadE2 1 1).1.cache.depth = 0 ∧
+    (DOp.rotate exBadE2 1 1).restoreOk (absList exBadD2) exBadD2.cache.cfg = false := by
+  decide +kernel
+
+theorem reverse_error_leaves_unchanged :
+    (match (exBadD2.reverse exBadE2 1).2 with | .exc "UnicodeEncodeError" => true | _ => false) = true ∧
+    (exBadD2.reverse exBadE2 1).1.cache.rows = exBadD2.cache.rows ∧
+    (exBadD2.reverse exBadE2 1).1.cache.files = exBadD2.cache.files ∧
+    (exBadD2.reverse exBadE2 1).1.cache.depth = 0 ∧
+    (match (exBadD2.iterVals exBadE2 2 false).2 with
+      | .list [.val (.int 5), .val (.str [0xD800])] => true | _ => false) = true := by
   decide +kernel
 
 /-! ### why `deque[i] = v` needs the pickle `Disk`
